@@ -24,7 +24,7 @@ RULE = ("token leg: account/password of printable ASCII (incl. + & = % space) or
         "another type; success when an ok comes within the budget. Discovery leg: a V3 model device accepting only the "
         "credentials registered for udpid(id bytes, little or big endian) + the model cloud + Discover.discover(auto_connect=True): "
         "device token/key == registered pair, online, genuine handshake seen; for big endian the little-endian attempt failed "
-        "first; variant: the cloud fails during a first Discover.connect() and has recovered when the user retries. Non-trivial: token list with >= 2 entries and a near miss before the match, or a fault sequence with >= 1 retry, "
+        "first; variants: up to two more V3 devices answer the same discovery (their cloud round trips take time and overlap); the cloud fails during a first Discover.connect() and has recovered when the user retries. Non-trivial: token list with >= 2 entries and a near miss before the match, or a fault sequence with >= 1 retry, "
         "or big-endian registration. Distinct by case.")
 ASSUMPTIONS = ["accounts and passwords are ASCII (the derivations encode with 'ASCII'); malformed JSON is not in the fault alphabet",
                "signature = sha256(path + '&'-joined sorted 'k=v' of the decoded form fields + app key), the public NetHome Plus scheme"]
@@ -160,9 +160,21 @@ def check_discovery(case: dict):
         harness.reset_library_globals()
         h = {"ip": "10.0.0.77", "id": dev_id, "port": case.get("port", 6444), "sn": "S" * 32, "tt": 0xAC, "suffix": "ABCD", "version": 3,
              "listen_port": 6445, "extra": bytes(8).hex()}
-        discsim.UdpWorld(net, [dict(ip=h["ip"], listen_port=6445, replies=[(0.05, 6445, discsim.good_reply(h))])])
         dev = SimDevice(loop, version=3, device_id=dev_id, token=token, key=key, ac=ModelAC())
         net.listen(h["ip"], h["port"], dev)
+        # further V3 devices answering the same discovery (their cloud logins / token requests overlap in time)
+        world_hosts = [dict(ip=h["ip"], listen_port=6445, replies=[(0.05, 6445, discsim.good_reply(h))])]
+        more = []
+        for i, m in enumerate(case.get("more", [])):
+            u = rc.udpid(m["id"].to_bytes(6, m["endian"])).hex()
+            mt, mk = creds_for(u)
+            hh = dict(h, ip=f"10.0.0.{80 + i}", id=m["id"], suffix=f"M{i}")
+            d2 = SimDevice(loop, version=3, device_id=m["id"], token=bytes.fromhex(mt), key=bytes.fromhex(mk), ac=ModelAC())
+            net.listen(hh["ip"], hh["port"], d2)
+            world_hosts.append(dict(ip=hh["ip"], listen_port=6445, replies=[(0.05 + 0.001 * (i + 1) * m.get("stagger", 1), 6445, discsim.good_reply(hh))]))
+            more.append((hh["ip"], mt, mk))
+        res["more"] = more
+        discsim.UdpWorld(net, world_hosts)
         kw = {"account": acct, "password": pw} if acct else {"region": case.get("region", "US")}
         try:
             if case.get("outage"):
@@ -193,9 +205,14 @@ def check_discovery(case: dict):
         return (f"discover/raises/{type(res['exc']).__name__}", f"{res['exc']!r}")
     if mc.errors:
         return ("contract/" + mc.errors[0].split(": ")[1].split()[0], f"model cloud rejected a request: {mc.errors[:3]}")
-    if len(res["devs"]) != 1:
-        return ("discover/count", f"{len(res['devs'])} devices")
-    d = res["devs"][0]
+    if len(res["devs"]) != 1 + len(res["more"]):
+        return ("discover/count", f"{len(res['devs'])} devices for {1 + len(res['more'])} hosts")
+    for ip, mt, mk in res["more"]:
+        dd = [x for x in res["devs"] if x.ip == ip]
+        if len(dd) != 1 or (dd[0].token, dd[0].key) != (mt.lower(), mk.lower()) or not dd[0].online:
+            return ("discover/second-device", f"device {ip} answering the same discovery: token/key/online = "
+                    f"{(dd[0].token and dd[0].token[:12], dd[0].key and dd[0].key[:12], dd[0].online) if dd else None}")
+    d = [x for x in res["devs"] if x.ip == "10.0.0.77"][0]
     if (d.token, d.key) != (token.hex(), key.hex()):
         return ("discover/creds", f"device token/key {d.token and d.token[:16]}../{d.key and d.key[:16]}.. != registered pair (endian {endian})")
     if not d.online:
@@ -253,7 +270,9 @@ def run(ctx) -> None:
     ctx.hyp("token", token_cases, lambda c: _run_one(ctx, c), ctx.n(3200, 160000))
     disc_cases = st.fixed_dictionaries({"leg": st.just("discovery"), "id": gens.device_ids(48).filter(lambda i: i.to_bytes(6, "little") != i.to_bytes(6, "big")),
                                         "endian": st.sampled_from(["little", "big"]), "port": st.sampled_from([6444, 6444, 7000])},
-                                       optional={"outage": st.fixed_dictionaries({}, optional={
+                                       optional={"more": st.lists(st.fixed_dictionaries({"id": gens.device_ids(48).filter(lambda i: i.to_bytes(6, "little") != i.to_bytes(6, "big")),
+                                                                                         "endian": st.sampled_from(["little", "big"]), "stagger": st.sampled_from([0, 1, 30, 200])}), max_size=2),
+                                                 "outage": st.fixed_dictionaries({}, optional={
                                            "/v1/user/login/id/get": st.lists(st.sampled_from(["timeout", "timeout", "http500", "connect", "api:3101"]), min_size=1, max_size=3),
                                            "/v1/user/login": st.lists(st.sampled_from(["timeout", "http500", "api:3102"]), min_size=1, max_size=3),
                                            "/v1/iot/secure/getToken": st.lists(st.sampled_from(["timeout", "timeout", "http404", "api:3106"]), min_size=1, max_size=3)}),
